@@ -226,6 +226,24 @@ impl<const PW: u8, const GAIN: i8> System for Sys<PW, GAIN> {
                 self.outcome = short_resp(&m.resp);
             }
         }
+        // a channel the network removed (NewChannelReq with frequency 0 on a non-default channel) is no longer a
+        // defined channel: whatever the mask says later, it must not come back
+        if let CEv::Cmd { bytes, .. } = ev
+            && !rr::is_fixed(&region)
+            && bytes.len() == 6
+            && bytes[0] == 0x07
+            && bytes[2..5] == [0, 0, 0]
+            && self.core.dead.is_none()
+        {
+            let idx = bytes[1] as usize;
+            let nj = rr::default_channels(&region).len();
+            if idx >= nj && idx < 16 && self.core.snap().region.channels[idx].is_some() {
+                out.push(V {
+                    sig: "C09|removed-channel-still-defined".into(),
+                    what: format!("{region}: NewChannelReq removed channel {idx}, the plan still holds {:?}", self.core.snap().region.channels[idx]),
+                });
+            }
+        }
         if keeps_power && self.core.dead.is_none() {
             let power_after = self.core.snap().tx_power;
             if power_after != power_before {
